@@ -51,6 +51,8 @@ type Ctx struct {
 	Notes    []string
 	Capped   []string
 
+	distinct    map[uint64]struct{}
+	distinctCap int
 	caseIdx  int64
 	trace    *os.File
 	progress atomic.Int64
@@ -121,6 +123,77 @@ func (c *Ctx) Seen(set, member string) {
 	if len(m) < 100000 {
 		m[member] = struct{}{}
 	}
+}
+
+// Distinct records one explored case by a 64-bit hash of its defining inputs. The first occurrence of a hash counts
+// towards "distinct" and, if nontrivial, towards "distinct_nontrivial". The set is capped (2 M hashes per worker);
+// beyond the cap nothing more is counted, which makes both numbers lower bounds (flagged in the evidence).
+func (c *Ctx) Distinct(h uint64, nontrivial bool) {
+	if c.distinct == nil {
+		c.distinct = make(map[uint64]struct{}, 1<<16)
+		c.distinctCap = 2 << 20
+	}
+	if len(c.distinct) >= c.distinctCap {
+		c.Counters["max:distinct_set_capped"] = 1
+		return
+	}
+	if _, ok := c.distinct[h]; ok {
+		c.Counters["duplicate_cases"]++
+		return
+	}
+	c.distinct[h] = struct{}{}
+	c.Counters["distinct"]++
+	if nontrivial {
+		c.Counters["distinct_nontrivial"]++
+	}
+}
+
+// Hash64 is FNV-1a over the given byte strings and integers (a separator between parts).
+func Hash64(parts ...any) uint64 {
+	h := uint64(14695981039346656037)
+	mix := func(b byte) { h ^= uint64(b); h *= 1099511628211 }
+	for _, p := range parts {
+		switch v := p.(type) {
+		case []byte:
+			for _, b := range v {
+				mix(b)
+			}
+		case string:
+			for i := 0; i < len(v); i++ {
+				mix(v[i])
+			}
+		case int:
+			for i := 0; i < 8; i++ {
+				mix(byte(v >> (8 * i)))
+			}
+		case uint64:
+			for i := 0; i < 8; i++ {
+				mix(byte(v >> (8 * i)))
+			}
+		case uint32:
+			for i := 0; i < 4; i++ {
+				mix(byte(v >> (8 * i)))
+			}
+		case uint16:
+			mix(byte(v))
+			mix(byte(v >> 8))
+		case uint8:
+			mix(v)
+		case bool:
+			if v {
+				mix(1)
+			} else {
+				mix(0)
+			}
+		default:
+			s := fmt.Sprint(v)
+			for i := 0; i < len(s); i++ {
+				mix(s[i])
+			}
+		}
+		mix(0x1F)
+	}
+	return h
 }
 
 // Sample keeps up to n literal examples per group.
